@@ -487,8 +487,10 @@ pub fn run(args: &Args, rep: &mut Report) {
     let budget = ((if thorough { 40_000_000.0 } else { 800_000.0 }) * args.scale) as u64 / args.nshards as u64;
     let effect_bytes = [0x80u8, 0x81, 0x82, 0x83, 0x30, 0x31];
     let mut i = 0;
+    let miri = args.regime == "miri";
     while i < budget {
-        let len = r.below(24);
+        // mostly short programs; now and then thousands of ops (chunked parsers / index tables switch there)
+        let len = if !miri && r.chance(0.002) { 1000 + r.below(9000) } else { r.below(24) };
         let mut bytes = vec![];
         for _ in 0..len {
             let b = match r.below(10) {
